@@ -32,6 +32,17 @@ def PolicyAgrees (σ : Mapper) (preq : PRequest) (pes : PEntities) (req' : Reque
   ∃ q, residualPolicy (partialEvaluate [] preq pes p) p = some q ∧
     SatAgrees (partialEvaluate σ (.ofConcrete req') (.ofConcrete es') q) (p.outcome req' es')
 
+/-- `PolicyAgrees` for an arbitrary second-pass store `pes2` (the store handed to `reauthorize`): the residual policy of
+    `p`, re-evaluated under the substitution on the concretised request and `pes2`, is satisfied exactly when `p` is
+    satisfied concretely on `(req', es')`.  `PolicyAgrees` is the instance `pes2 = .ofConcrete es'`. -/
+def PolicyAgreesOn (pes2 : PEntities) (σ : Mapper) (preq : PRequest) (pes : PEntities) (req' : Request) (es' : Entities)
+    (p : Policy) : Prop :=
+  ∃ q, residualPolicy (partialEvaluate [] preq pes p) p = some q ∧
+    SatAgrees (partialEvaluate σ (.ofConcrete req') pes2 q) (p.outcome req' es')
+
+theorem policyAgrees_iff_on (σ : Mapper) (preq : PRequest) (pes : PEntities) (req' : Request) (es' : Entities) (p : Policy) :
+    PolicyAgrees σ preq pes req' es' p ↔ PolicyAgreesOn (.ofConcrete es') σ preq pes req' es' p := Iff.rfl
+
 section
 variable (preq : PRequest) (pes : PEntities) (ps : List Policy)
 
@@ -98,29 +109,30 @@ theorem isEmpty_congr {α} {l1 l2 : List α} (h : ∀ x, x ∈ l1 ↔ x ∈ l2) 
     | nil => exact ((h a).mp List.mem_cons_self |> fun h => by cases h)
     | cons b t' => rfl
 
-theorem reauthorize_core (σ : Mapper) (preq : PRequest) (pes : PEntities) (ps : List Policy)
+/-- `reauthorize` against an arbitrary second-pass store `pes2`, given policy-level agreement on that store -/
+theorem reauthorize_core_on (pes2 : PEntities) (σ : Mapper) (preq : PRequest) (pes : PEntities) (ps : List Policy)
     (req' : Request) (es' : Entities)
     (hreq : (isAuthorizedCore [] preq pes ps).concretizeRequest σ = .ok (.ofConcrete req'))
     (hslot : (isAuthorizedCore [] preq pes ps).residualPoliciesPanic = false)
-    (hsound : ∀ p, p ∈ ps → PolicyAgrees σ preq pes req' es' p) :
-    ∃ pr2, (isAuthorizedCore [] preq pes ps).reauthorize σ (.ofConcrete es') = .ok pr2 ∧
+    (hsound : ∀ p, p ∈ ps → PolicyAgreesOn pes2 σ preq pes req' es' p) :
+    ∃ pr2, (isAuthorizedCore [] preq pes ps).reauthorize σ pes2 = .ok pr2 ∧
       pr2.decision = some (isAuthorized req' es' ps).decision ∧
       pr2.concretize.decision = (isAuthorized req' es' ps).decision ∧
       (∀ id, id ∈ pr2.concretize.reasons ↔ id ∈ (isAuthorized req' es' ps).reasons) := by
   let pr := isAuthorizedCore [] preq pes ps
   let Q := pr.allResidualPolicies
-  let pr2 := isAuthorizedCore σ (.ofConcrete req') (.ofConcrete es') Q
-  have hre : pr.reauthorize σ (.ofConcrete es') = .ok pr2 := by
-    show (isAuthorizedCore [] preq pes ps).reauthorize σ (.ofConcrete es') = _
+  let pr2 := isAuthorizedCore σ (.ofConcrete req') pes2 Q
+  have hre : pr.reauthorize σ pes2 = .ok pr2 := by
+    show (isAuthorizedCore [] preq pes ps).reauthorize σ pes2 = _
     unfold PartialResponse.reauthorize
     simp only [hslot, Bool.false_eq_true, if_false]
     rw [hreq]; rfl
   refine ⟨pr2, hre, ?_⟩
-  have S2 := core_spec σ (.ofConcrete es') (.ofConcrete req') Q
+  have S2 := core_spec σ pes2 (.ofConcrete req') Q
   have hQ := mem_allResidualPolicies preq pes ps
   -- satisfied buckets of the re-authorization = concretely satisfied policies
   have sat_iff : ∀ (eff : Effect) (id : String),
-      (∃ q, q ∈ Q ∧ id = q.id ∧ q.effect = eff ∧ partialEvaluate σ (.ofConcrete req') (.ofConcrete es') q = .sat) ↔
+      (∃ q, q ∈ Q ∧ id = q.id ∧ q.effect = eff ∧ partialEvaluate σ (.ofConcrete req') pes2 q = .sat) ↔
       (∃ p, p ∈ ps ∧ id = p.id ∧ p.effect = eff ∧ Sat req' es' p) := by
     intro eff id
     constructor
@@ -135,13 +147,13 @@ theorem reauthorize_core (σ : Mapper) (preq : PRequest) (pes : PEntities) (ps :
       obtain ⟨q, hq, hm⟩ := hsound p hp
       obtain ⟨h1, h2⟩ := residualPolicy_id hq
       refine ⟨q, (hQ q).mpr ⟨p, hp, hq⟩, h1.symm, h2.trans he, ?_⟩
-      cases hc : partialEvaluate σ (.ofConcrete req') (.ofConcrete es') q with
+      cases hc : partialEvaluate σ (.ofConcrete req') pes2 q with
       | sat => rfl
       | unsat => rw [hc] at hm; exact (hm hs).elim
       | err => rw [hc] at hm; exact (hm hs).elim
       | residual e => rw [hc] at hm; exact hm.elim
       | stuck => rw [hc] at hm; exact hm.elim
-  have no_res : ∀ q, q ∈ Q → ∀ e, partialEvaluate σ (.ofConcrete req') (.ofConcrete es') q ≠ .residual e := by
+  have no_res : ∀ q, q ∈ Q → ∀ e, partialEvaluate σ (.ofConcrete req') pes2 q ≠ .residual e := by
     intro q hq e hc
     obtain ⟨p, hp, hpq⟩ := (hQ q).mp hq
     obtain ⟨q', hq', hm⟩ := hsound p hp
@@ -190,5 +202,16 @@ theorem reauthorize_core (σ : Mapper) (preq : PRequest) (pes : PEntities) (ps :
     cases (ps.foldl (Buckets.step req' es') {}).satForbids.isEmpty
     · simp only [Bool.false_eq_true, if_false]; exact hSF id
     · simp only [if_true]; exact hSP id
+
+theorem reauthorize_core (σ : Mapper) (preq : PRequest) (pes : PEntities) (ps : List Policy)
+    (req' : Request) (es' : Entities)
+    (hreq : (isAuthorizedCore [] preq pes ps).concretizeRequest σ = .ok (.ofConcrete req'))
+    (hslot : (isAuthorizedCore [] preq pes ps).residualPoliciesPanic = false)
+    (hsound : ∀ p, p ∈ ps → PolicyAgrees σ preq pes req' es' p) :
+    ∃ pr2, (isAuthorizedCore [] preq pes ps).reauthorize σ (.ofConcrete es') = .ok pr2 ∧
+      pr2.decision = some (isAuthorized req' es' ps).decision ∧
+      pr2.concretize.decision = (isAuthorized req' es' ps).decision ∧
+      (∀ id, id ∈ pr2.concretize.reasons ↔ id ∈ (isAuthorized req' es' ps).reasons) :=
+  reauthorize_core_on (.ofConcrete es') σ preq pes ps req' es' hreq hslot hsound
 
 end Cedar
